@@ -121,6 +121,9 @@ class Module:
             elif isinstance(v, ast.Call) and not v.keywords and len(v.args) == 1 and isinstance(v.args[0], ast.Constant) and dotted(v.func) \
                     and self._imported_qual(dotted(v.func)) in ("operator.attrgetter", "operator.itemgetter"):
                 out[name] = (self, v)           # a closed constructor of a pure accessor: _coalition_id = attrgetter("id")
+            elif isinstance(v, ast.Call) and isinstance(v.func, ast.Name) and v.func.id == "slice" and not v.keywords and 1 <= len(v.args) <= 3 \
+                    and "slice" not in self.defs and "slice" not in self.imports and all(_closed_int(a) for a in v.args):
+                out[name] = (self, v)           # a named slice of constants: _BOUNDS = slice(_Column.LOWER, _Column.UPPER + 1), _ALL_ROWS = slice(None)
             elif isinstance(v, ast.Tuple) and v.elts and all(isinstance(x, ast.Constant) and (x.value is None or isinstance(x.value, (bool, int, float, str)))
                                                              for x in v.elts):
                 out[name] = (self, v)           # an immutable tuple of scalar literals: RECORD_FIELDS = ("data", "actions", "metadata")
@@ -539,6 +542,21 @@ def src(node: ast.AST | None) -> str:
         return ast.unparse(node)
     except Exception:  # pragma: no cover
         return ast.dump(node)
+
+
+def _closed_int(e: ast.expr) -> bool:
+    """An expression built from integer literals, None and dotted names (enum members, other constants) with + and -: nothing that runs code."""
+    if isinstance(e, ast.Constant):
+        return e.value is None or type(e.value) is int
+    if isinstance(e, ast.Name):
+        return True
+    if isinstance(e, ast.Attribute):
+        return _closed_int(e.value)
+    if isinstance(e, ast.BinOp) and isinstance(e.op, (ast.Add, ast.Sub)):
+        return _closed_int(e.left) and _closed_int(e.right)
+    if isinstance(e, ast.UnaryOp) and isinstance(e.op, ast.USub):
+        return _closed_int(e.operand)
+    return False
 
 
 def const_value(expr: ast.AST):
